@@ -90,7 +90,7 @@ def nl(l):
 
 def coq_nodes(ns, with_perm=False):
     def one(op, attrs, i, c, o):
-        a = nl(attrs) if (with_perm and attrs is not None) else "[]"
+        a = nl([1] + list(attrs)) if (with_perm and attrs is not None) else "[]"
         return f'mkNode "{op}"%string {a} {nl(i)} {nl(c)} {nl(o)}'
     return "[" + "; ".join(one(*n) for n in ns) + "]"
 
@@ -163,7 +163,13 @@ class _Builder:
 
     def scalar_const(self, max_rank=3):
         r = self.rng.choice([0, 0, 1, 1, 2, 3][: max_rank + 3])
-        return self.const(np.full((1,) * r, 0.5, np.float32))
+        arr = np.full((1,) * r, 0.5, np.float32)
+        if self.rng.random() < 0.15:      # a constant WITHOUT a declared shape: its rank is that of the payload
+            ir = self.ir
+            v = ir.Value(name=self.fresh("c_"), type=ir.TensorType(ir.DataType.FLOAT), const_value=ir.tensor(arr))
+            self.consts.append(v)
+            return v
+        return self.const(arr)
 
     def bare_initializer(self, shp):
         """an initializer WITHOUT a constant payload: _is_scalar_const_value falls back to its declared dims"""
@@ -303,14 +309,30 @@ def _rand_reshape_graph(ir, rng, stats):
 
 
 def _annotations(ir, opt, b, intern):
-    shapes, scalars = {}, {}
+    shapes, scalars, cranks = {}, {}, {}
     for v in b.inputs + b.consts + b.vals:
         ds = dims_of(ir, v)
         if ds is not None:
             shapes[intern(v.name)] = ds
         if opt._is_scalar_const_value(v):
             scalars[intern(v.name)] = True
-    return shapes, scalars
+        arr = opt._to_numpy_from_any(v)
+        if arr is not None:
+            cranks[intern(v.name)] = int(np.asarray(arr).ndim)
+    return shapes, scalars, cranks
+
+
+def _rank_defect_graph(ir, rng, i):
+    """x -Reshape-> Max/Min(., c) -Reshape-> y with a one-element constant c of rank 0..3: both sides of the rank guard
+    (the fold of a constant that outranks src changed the output shape: .scratch/c02p/defect_reshape_pair_rank.py)"""
+    b = _Builder(ir, rng)
+    src_shape, mid = [((6,), (2, 3)), ((2, 3), (6,)), ((1, 2, 3), (6,)), ((), (1, 1))][(i // 8) % 4]
+    x = b.inp(src_shape)
+    c = b.const(np.full((1,) * (i % 4), 0.5, np.float32))
+    a = b.node("Reshape", [x, b.const(np.asarray(mid, np.int64))], mid)
+    m = b.node(["Max", "Min"][(i // 4) % 2], [a, c] if i % 3 else [c, a][::-1], mid)
+    y = b.node("Reshape", [m, b.const(np.asarray(src_shape, np.int64))], src_shape)
+    return b, b.graph([y])
 
 
 def tie_reshape_pair_pass(ctx, n_cases):
@@ -321,22 +343,24 @@ def tie_reshape_pair_pass(ctx, n_cases):
     stats = collections.Counter()
     rows = []
     for c in range(n_cases):
-        b, g = _rand_reshape_graph(ir, rng, stats)
+        b, g = _rank_defect_graph(ir, rng, c) if c < 32 else _rand_reshape_graph(ir, rng, stats)
         table = {}
 
         def intern(name):
             return table.setdefault(name, len(table) + 1)
         known = {v.name for v in b.inputs + b.consts + b.vals}
         before = dump(ir, g, intern, known)
-        shapes, scalars = _annotations(ir, opt, b, intern)
+        shapes, scalars, cranks = _annotations(ir, opt, b, intern)
         opt.remove_redundant_reshape_pairs_ir(g)
         after = dump(ir, g, intern, known)
-        shapes_after, _ = _annotations(ir, opt, b, intern)
+        shapes_after, _, _ = _annotations(ir, opt, b, intern)
         removed = len(before[0]) - len(after[0])
         stats["graphs_rewritten"] += int(removed > 0)
         stats["nodes_removed"] += removed
         stats["shapes_refreshed"] += sum(1 for k, v in shapes_after.items() if shapes.get(k) != v)
-        rows.append((before, after, shapes, scalars, shapes_after))
+        if c < 32:
+            stats["rank_guard_folded" if removed else "rank_guard_kept"] += 1
+        rows.append((before, after, shapes, scalars, shapes_after, cranks))
     header = common.CASES_HEADER + "From J2O Require Import Graph Redirect ReshapePairPass.\nClose Scope Z_scope.\n" + NODE_EQB + """
 Definition dims_eqb (a b : option (list dim)) : bool :=
   match a, b with Some x, Some y => list_eqb dim_eqb x y | None, None => true | _, _ => false end.
@@ -349,9 +373,9 @@ Definition chk (c : pgraph * (list node * list nat) * list (nat * list dim)) : b
 
     def render(chunk, off):
         items = []
-        for before, after, shapes, scalars, shapes_after in chunk:
+        for before, after, shapes, scalars, shapes_after, cranks in chunk:
             pg = (f"(mkPG {coq_nodes(before[0])} {nl(before[1])} {coq_fn(shapes, '(list dim)', lambda v: '(Some ' + dims_lit(v) + ')')} "
-                  f"{coq_fn(scalars, 'bool', lambda v: 'true', default='false')})")
+                  f"{coq_fn(scalars, 'bool', lambda v: 'true', default='false')} {coq_fn(cranks, 'nat', lambda v: f'(Some {v})')})")
             sh = "[" + "; ".join(f"({k}, {dims_lit(v)})" for k, v in sorted(shapes_after.items())) + "]"
             items.append(f"({pg}, ({coq_nodes(after[0])}, {nl(after[1])}), {sh})")
         return "Definition cs := [\n" + ";\n".join(items) + "].\nEval vm_compute in bad_idx_ chk 0 cs.\n"
@@ -361,4 +385,233 @@ Definition chk (c : pgraph * (list node * list nat) * list (nat * list dim)) : b
                err is None and bad == [], "tie",
                err if err is not None else f"model and implementation differ on cases {bad[:6]}: {[rows[i][:2] for i in bad[:2]]}")
     ctx.coverage["reshape_pair_tie"] = dict(stats)
+    return rows, bad
+
+
+# ------------------------------------------------------------------ random graphs for the transpose-pair pass
+_PERMS = {2: [[1, 0], [0, 1]], 3: [[0, 2, 1], [2, 0, 1], [1, 2, 0], [1, 0, 2], [0, 1, 2]], 4: [[0, 2, 3, 1], [0, 3, 1, 2], [0, 1, 3, 2]]}
+
+
+def _inv(p):
+    q = [0] * len(p)
+    for i, k in enumerate(p):
+        q[k] = i
+    return q
+
+
+def _tnode(b, ir, x, perm, domain=""):
+    attrs = [] if perm is None else [ir.Attr("perm", ir.AttributeType.INTS, list(perm))]
+    return b.node("Transpose", [x], None, domain=domain, attrs=attrs)
+
+
+def _rand_transpose_graph(ir, rng, stats):
+    b = _Builder(ir, rng)
+    rank = rng.choice([2, 3, 3, 4])
+    shp = (2, 3, 4, 5)[:rank]
+    for _ in range(rng.randint(1, 3)):
+        b.inp(shp)
+    must_out = []
+
+    def dom(pr=0.05):
+        return rng.choice(["custom", "ai.onnx", "ai.onnx"]) if rng.random() < pr else ""
+
+    def pick_perm():
+        return list(rng.choice(_PERMS[rank]))
+
+    def out_perm(p):
+        r = rng.random()
+        if r < 0.8:
+            return _inv(p)
+        if r < 0.9:
+            return pick_perm()
+        return None if r < 0.95 else list(p)
+
+    def side(cur):
+        s = rng.random()
+        if s < 0.55:
+            return b.scalar_const()
+        if s < 0.65:
+            return b.bare_initializer(rng.choice([(1,), (1, 1), (), (3,), None]))
+        if s < 0.75:
+            return cur
+        if s < 0.85:
+            return b.const(np.zeros((2, 3)[: rng.randint(1, 2)], np.float32))
+        return rng.choice(b.vals)
+
+    def perturb(vals, p_out=0.06, p_cap=0.06, p_cons=0.08):
+        for v in vals:
+            r = rng.random()
+            if r < p_out:
+                must_out.append(v)
+                stats["intermediate_is_output"] += 1
+            elif r < p_out + p_cap:
+                b.if_capturing([v])
+                stats["intermediate_captured"] += 1
+            elif r < p_out + p_cap + p_cons:
+                must_out.append(b.node(rng.choice(["Relu", "Shape", "Neg", "Softmax"]), [v], None))
+                stats["extra_consumer"] += 1
+
+    for _ in range(rng.randint(1, 3)):
+        kind = rng.random()
+        if kind < 0.35:
+            # T1 -> chain of ALLOWED_ELEMWISE / other elementwise -> T2
+            p = pick_perm()
+            src = rng.choice(b.vals)
+            cur = _tnode(b, ir, src, p if rng.random() < 0.95 else None, dom())
+            vals = [cur]
+            t1_out = cur
+            for j in range(rng.choice([0, 0, 1, 1, 2, 3, 5, 7, 8])):
+                q = rng.random()
+                if q < 0.4:
+                    op = rng.choice(_UNARY + ["Abs", "Neg", "Exp", "Sqrt"])
+                    cur = b.node(op, [cur], None, domain=dom(), attrs=[ir.Attr("to", ir.AttributeType.INT, 1)] if op == "Cast" else [])
+                elif q < 0.75:
+                    op = rng.choice(_SIDE + ["Add", "Mul", "Sub"])
+                    sides = [side(cur) for _s in range(2 if op == "Clip" and rng.random() < 0.5 else 1)]
+                    ins = [cur] + sides if (op == "Clip" or rng.random() < 0.7) else sides + [cur]
+                    cur = b.node(op, ins, None, domain=dom())
+                elif q < 0.9:
+                    like = rng.choice([b.scalar_const(), rng.choice(b.vals), t1_out, b.const(np.zeros((2, 3), np.float64))])
+                    cur = b.node("CastLike", [cur, like] if rng.random() < 0.85 else [like, cur], None, domain=dom())
+                else:
+                    cur = b.node(rng.choice(["Softmax", "ReduceSum", "Dropout"]), [cur], None)
+                vals.append(cur)
+            t2 = _tnode(b, ir, cur, out_perm(p), dom())
+            must_out.append(t2)
+            if rng.random() < 0.4:
+                must_out.append(b.node("Relu", [t2], None))
+            perturb(vals)
+        elif kind < 0.6:
+            # forest: several transposed inputs -> elementwise DAG -> one or more inverse transposes
+            p = pick_perm()
+            leaves = []
+            for _i in range(rng.randint(1, 3)):
+                pp = p if rng.random() < 0.9 else pick_perm()
+                leaves.append(_tnode(b, ir, rng.choice(b.vals), pp, dom(0.03)))
+            pool = list(leaves)
+            inner = []
+            for j in range(rng.randint(1, 4)):
+                q = rng.random()
+                if q < 0.55 and len(pool) >= 1:
+                    x, y = rng.choice(pool), rng.choice(pool + [b.scalar_const()] + ([rng.choice(b.vals)] if rng.random() < 0.1 else []))
+                    v = b.node(rng.choice(["Add", "Mul", "Sub", "Div", "Max"]), [x, y] if rng.random() < 0.7 else [y, x], None, domain=dom(0.03))
+                else:
+                    v = b.node(rng.choice(["Relu", "Neg", "Sigmoid", "Exp", "Identity"]), [rng.choice(pool)], None, domain=dom(0.03))
+                pool.append(v)
+                inner.append(v)
+            for v in inner[-rng.randint(1, 2):]:
+                t2 = _tnode(b, ir, v, out_perm(p), dom(0.03))
+                must_out.append(t2)
+            for v in inner[:-1]:
+                if not v.consumers() and rng.random() < 0.6:
+                    must_out.append(_tnode(b, ir, v, _inv(p), ""))
+            perturb(inner + leaves, 0.05, 0.05, 0.06)
+        elif kind < 0.8:
+            # Add chain between transposes
+            p = pick_perm()
+            n_first = rng.randint(1, 2)
+            cur = b.node("Add", [_tnode(b, ir, rng.choice(b.vals), p, "") for _i in range(2)] if n_first == 2 or rng.random() < 0.7
+                         else [_tnode(b, ir, rng.choice(b.vals), p, ""), rng.choice(b.vals)], None, domain=dom(0.03))
+            adds = [cur]
+            for j in range(rng.randint(0, 3)):
+                if rng.random() < 0.5:
+                    must_out.append(_tnode(b, ir, cur, out_perm(p), dom(0.03)))
+                t = _tnode(b, ir, rng.choice(b.vals), p if rng.random() < 0.9 else pick_perm(), "")
+                cur = b.node("Add", [cur, t] if rng.random() < 0.6 else [t, cur], None, domain=dom(0.03))
+                adds.append(cur)
+            for _i in range(rng.randint(1, 2)):
+                must_out.append(_tnode(b, ir, cur, out_perm(p), dom(0.03)))
+            perturb(adds, 0.05, 0.05, 0.08)
+        elif kind < 0.93:
+            # one transpose with several consumers, some of them inverse transposes
+            p = pick_perm()
+            t1 = _tnode(b, ir, rng.choice(b.vals), p, dom())
+            for _i in range(rng.randint(2, 4)):
+                if rng.random() < 0.6:
+                    must_out.append(_tnode(b, ir, t1, out_perm(p), dom()))
+                else:
+                    must_out.append(b.node(rng.choice(["Relu", "Neg", "Softmax"]), [t1], None))
+            perturb([t1], 0.1, 0.1, 0.0)
+        else:
+            must_out.append(b.node(rng.choice(["Relu", "Neg", "Add"]), [rng.choice(b.vals)], None))
+    outs = []
+    for v in must_out:
+        if v not in outs and (rng.random() < 0.85 or not v.consumers()):
+            outs.append(v)
+    if not outs:
+        outs = [b.vals[-1]]
+    return b, b.graph(outs)
+
+
+_KINDS = ["add_chain", "forest", "dag_direct_pair", "dag_with_elementwise", "chain_direct_pair", "chain_with_elementwise", "multi_consumer"]
+
+
+def tie_transpose_pair_pass(ctx, n_cases):
+    import collections
+    import re
+    import onnx_ir as ir
+    from jax2onnx.converter import ir_optimizations as opt
+    rng = ctx.rng
+    stats = collections.Counter()
+    rows = []
+    crashes = []
+    for c in range(n_cases):
+        b, g = _rand_transpose_graph(ir, rng, stats)
+        table = {}
+
+        def intern(name):
+            return table.setdefault(name, len(table) + 1)
+        known = {v.name for v in b.inputs + b.consts + b.vals}
+        before = dump(ir, g, intern, known)
+        scalars = {intern(v.name): True for v in b.inputs + b.consts + b.vals if opt._is_scalar_const_value(v)}
+        try:
+            opt.remove_redundant_transpose_pairs_ir(g)
+        except Exception as e:      # an exception of the real pass is not a disagreement of the model: reported separately
+            crashes.append((c, repr(e)[:200], before))
+            continue
+        after = dump(ir, g, intern, known)
+        removed = len(before[0]) - len(after[0])
+        stats["graphs_rewritten"] += int(before != after)
+        stats["nodes_removed"] += removed
+        rows.append((before, after, scalars))
+    header = common.CASES_HEADER + "From J2O Require Import Graph Redirect ReshapePairPass TransposePairPass.\nClose Scope Z_scope.\n" + """
+Definition chk (c : tgraph * (list node * list nat)) : bool :=
+  let '(g, (ns, outs)) := c in
+  let g' := transpose_pair_pass 60 g in
+  list_eqb node_eqb (tg_nodes g') ns && leqb (tg_outputs g') outs.
+Definition kinds (l : list (tgraph * (list node * list nat))) : list nat :=
+  let tr := map (fun c => pass_trace 60 (fst c)) l in
+  map (fun k => length (filter (Nat.eqb k) (concat tr))) (seq 1 7)
+  ++ [length (filter (fun t => negb (match t with [] => true | _ => false end)) tr);
+      length (filter (fun t => negb (match t with [] => true | _ => false end) && forallb (fun k => negb (Nat.eqb k 1 || Nat.eqb k 2 || Nat.eqb k 4)) t) tr)].
+"""
+
+    def render(chunk, off):
+        items = []
+        for before, after, scalars in chunk:
+            tg = f"(mkTG {coq_nodes(before[0], True)} {nl(before[1])} {coq_fn(scalars, 'bool', lambda v: 'true', default='false')})"
+            items.append(f"({tg}, ({coq_nodes(after[0], True)}, {nl(after[1])}))")
+        return ("Definition cs := [\n" + ";\n".join(items) + "].\nEval vm_compute in bad_idx_ chk 0 cs.\n"
+                "Definition kinds_result := kinds cs.\nEval vm_compute in kinds_result.\n")
+    results, offsets = coq_eval_batches(ctx, "c02_transpose_pair", header, rows, render)
+    bad, err = collect_bad(results, offsets)
+    kinds = [0] * 9
+    for ok, out in results:
+        m = re.findall(r"=\s*(\[[^\]]*\])\s*:\s*list nat", out.replace("\n", " "))
+        if ok and len(m) >= 2:
+            for i, x in enumerate(m[1].strip("[]").split(";")):
+                kinds[i] += int(x.replace("%nat", "").strip())
+    for k, name in enumerate(_KINDS):
+        stats["actions_" + name] = kinds[k]
+    stats["graphs_with_actions"] = kinds[7]
+    stats["graphs_all_actions_of_proved_kinds"] = kinds[8]
+    stats["real_pass_raised"] = len(crashes)
+    ctx.oblige(f"tie:TransposePairPass.v transpose_pair_pass == remove_redundant_transpose_pairs_ir ({len(rows)} random graphs, "
+               f"{stats['graphs_rewritten']} rewritten, {stats['nodes_removed']} nodes removed; actions by kind "
+               f"{ {n: kinds[k] for k, n in enumerate(_KINDS)} })",
+               err is None and bad == [], "tie",
+               err if err is not None else f"model and implementation differ on cases {bad[:6]}: {[rows[i][:2] for i in bad[:2]]}")
+    ctx.coverage["transpose_pair_tie"] = dict(stats)
+    if crashes:
+        ctx.coverage["transpose_pair_tie"]["raised_examples"] = [c[1] for c in crashes[:3]]
     return rows, bad
